@@ -134,7 +134,7 @@ def runner(ctx):
                 return [(("agg", SM.POLL, 0, (A.OK(A.UNIT),)), path)]
             return None
         try:
-            outs, I, cb = run_async(ctx, b, [("hookref",), P.self_ref(True), ("mnem",)], icpt)
+            outs, I, cb = run_async(ctx, b, [("hookref",), P.self_ref(True), ("mnem",)], icpt, may_inline=runner_inline)
         except KeyError as e:
             ck.violation("C12.chain", "runner=" + nm, str(e))
             continue
